@@ -958,8 +958,11 @@ func verifStageGen(r *gen.Rand) []vsOp {
 				case 2: // connection cut
 					data = data[:r.Intn(len(data))]
 					op.rerr = true
-				case 3: // wrong announced hash
+				case 3: // wrong announced hash: another file's, or none at all
 					op.part.hash = vsMD5([]byte("other"))
+					if r.Chance(1, 2) {
+						op.part.hash = ""
+					}
 				}
 			}
 			op.data = data
